@@ -111,6 +111,13 @@ def run(tier, seed, mutant=None, only_validate=False):
         # falsy payloads: elements whose value is None / 0 are elements like any other
         cfgs += [{"kind": "latest", "cons": ["future"], "max_elems": ne, "falsy": f}
                  for f in ({"none": 2, "zero": 3}, {"none": ne}, {"zero": 1, "none": 3})]
+        # start() / stop();start() reaching the node from downstream (idle, busy, between arrivals): nothing changes
+        import random as _random
+        _rng = _random.Random(seed + 7)
+        life = ["e1 s s d s Z e1 s s d", "e1 s s Z e1 s s d s d", "R e1 s s d Z e1 s s d Z e1 s s d", "e1 s s d s s Z s e1 s s s d"]
+        life += [" ".join(_rng.choice(["e1", "e1", "s", "s", "d", "R", "Z"]) for _ in range(_rng.randint(6, 14)))
+                 for _ in range(60 if tier == "quick" else 600)]
+        cfgs += [{"kind": "latest", "cons": [c], "max_elems": ne, "lifecycle": True, "schedules": life} for c in ("future", "sync")]
         amod.node_engine(res, work, node="latest", trace_module="AsyncLatestTrace", cfgs=cfgs,
                          consts_of=lambda c: dict(NE=ne, SyncCons=c["cons"][0] == "sync", Legacy=False, CbOwns=False),
                          adapt=adapt, attribute=attribute, seed=seed, depth=8 if tier == "quick" else 10,
